@@ -48,6 +48,9 @@ func c09Txns() []c09Txn {
 		{"rollback", "", "PRAGMA cache_size=1", `BEGIN; ` + bulk + `; ROLLBACK`, false},
 		{"tiny", "", "", `UPDATE w SET v = 9 WHERE k = 'a'`, false},
 		{"two-page-db", `CREATE TABLE m (a); INSERT INTO m VALUES (1);`, "", `UPDATE m SET a = 2`, true},
+		// the first transaction ever on a file of 0 bytes: nothing to journal (page count 0, initial size 0); recovery = truncate to nothing
+		{"first-transaction-on-empty-file", "", "", `BEGIN; CREATE TABLE first (a, b); CREATE INDEX first_b ON first (b); INSERT INTO first VALUES (1, 'x'), (2, 'y'), (3, 'z'); COMMIT`, true},
+		{"first-transaction-on-empty-file-spill", "", "PRAGMA cache_size=1", `BEGIN; CREATE TABLE first (a, b); WITH RECURSIVE n(i) AS (SELECT 1 UNION ALL SELECT i+1 FROM n WHERE i<150) INSERT INTO first SELECT i, 'xxxxxxxxxxxxxxxxxxxxxxxxxxxxxxxxxxxxxxxxxxxxxxxxxxxxxxxxxxxxxxxxxxxxxxxxxxxxxxxxxxxxxxxxxxxx'||i FROM n; COMMIT`, true},
 		// journals of 1..27 bytes after a completed commit (journal_size_limit below the header size)
 		{"size-limit-16", "", "PRAGMA journal_size_limit=16; PRAGMA cache_size=1", `BEGIN; UPDATE t SET v = 'limited' WHERE id < 25; COMMIT`, false},
 		{"size-limit-1", "", "PRAGMA journal_size_limit=1", `UPDATE w SET v = 5 WHERE k = 'c'`, false},
@@ -151,6 +154,12 @@ func c09Record(dir string, cfg c09Config) (b0 []byte, ops []lite.VfsOp, endDB, e
 		return
 	}
 	defer l.Close()
+	if len(b0) == 0 {
+		// nothing is stored yet, the page size included
+		if err = l.Exec(fmt.Sprintf("PRAGMA page_size=%d", cfg.ps)); err != nil {
+			return
+		}
+	}
 	if _, err = l.Query("PRAGMA journal_mode=" + cfg.mode); err != nil {
 		return
 	}
@@ -175,7 +184,7 @@ func c09Record(dir string, cfg c09Config) (b0 []byte, ops []lite.VfsOp, endDB, e
 }
 
 func runC09(r *ev.Run) {
-	r.Rule = "real SQLite write transactions (one-row autocommit update, small update, spilling bulk insert with cache_size=1, file-growing insert, delete with auto-vacuum truncation, schema change, spilled rollback) recorded under a logging VFS, journal modes DELETE/TRUNCATE/PERSIST, page sizes {512 (+1024, 4096 thorough)}, sector sizes {512, 4096}; for the log of N file operations: every prefix 0..N (the writer process dies before operation k; completed system calls persist) and for every write its torn variants (first 512 bytes, first half rounded to 512; for small writes every 4-byte prefix); oracle: real SQLite opens a copy of the pair, performs its own recovery and dumps it; sqlittle on the original either fails or returns exactly that dump; every image is read by a fresh handle and by handles opened before the writer started: one that read everything, one that was only opened, one that only listed the tables, (operation boundaries) one that was refused a read once while another process held EXCLUSIVE, and a fresh handle while another process is in the middle of a read; from the commit point on (journal deleted / truncated / header zeroed) and before the first operation it must succeed. conformance: replaying the whole log reproduces the files the real run left behind, byte for byte. non-trivial = images with a journal on disk"
+	r.Rule = "real SQLite write transactions (one-row autocommit update, small update, spilling bulk insert with cache_size=1, file-growing insert, delete with auto-vacuum truncation, schema change, spilled rollback, the first transaction ever on a file of 0 bytes) recorded under a logging VFS, journal modes DELETE/TRUNCATE/PERSIST, page sizes {512 (+1024, 4096 thorough)}, sector sizes {512, 4096}; for the log of N file operations: every prefix 0..N (the writer process dies before operation k; completed system calls persist) and for every write its torn variants (first 512 bytes, first half rounded to 512; for small writes every 4-byte prefix); oracle: real SQLite opens a copy of the pair, performs its own recovery and dumps it; sqlittle on the original either fails or returns exactly that dump; every image is read by a fresh handle and by handles opened before the writer started: one that read everything, one that was only opened, one that only listed the tables, (operation boundaries) one that was refused a read once while another process held EXCLUSIVE, and a fresh handle while another process is in the middle of a read; from the commit point on (journal deleted / truncated / header zeroed) and before the first operation it must succeed. conformance: replaying the whole log reproduces the files the real run left behind, byte for byte. non-trivial = images with a journal on disk"
 	dir := ev.TmpDir("c09")
 	defer os.RemoveAll(dir)
 	c09Peers = make(chan *Peer, 8)
@@ -299,7 +308,7 @@ func runC09(r *ev.Run) {
 				f.apply(ops[im.k], im.torn)
 				desc = fmt.Sprintf("writer dies during operation %d of %d (%s): only the first %d bytes reach the file", im.k, len(ops), ops[im.k], im.torn)
 			}
-			mustSucceed := im.torn < 0 && (im.k == 0 || (commit >= 0 && im.k > commit) || (rollbackTxn && im.k == len(ops)))
+			mustSucceed := im.torn < 0 && ((im.k == 0 && len(b0) > 0) || (commit >= 0 && im.k > commit) || (rollbackTxn && im.k == len(ops)))
 			c09Image(r, dir, fmt.Sprintf("c%d-i%d", ci, ii), cfg, &f, desc, mustSucceed, im.k, opsS, nil)
 			// the same pair seen by a handle that was opened (and used) before the writer started
 			c09Image(r, dir, fmt.Sprintf("c%d-l%d", ci, ii), cfg, &f, desc, mustSucceed, im.k, opsS, b0)
@@ -347,6 +356,9 @@ func c09ImageKind(r *ev.Run, dir, name string, cfg c09Config, f *c09Files, desc 
 		}
 	}()
 	handle := "fresh"
+	if before != nil && len(before) == 0 {
+		return // no handle can have been opened on a file of 0 bytes
+	}
 	if before != nil {
 		// a long-lived handle: opened and read on the state before the transaction
 		handle = kind
